@@ -279,13 +279,17 @@ func (m *Muxer) WriteData(d *MuxerData) (int, error) {
 			ccBefore := ctx.cc
 			pkt.Header.ContinuityCounter = uint8(ctx.cc.inc())
 			m.buf.Reset()
-			if d.PES.Header.StreamID == 0 {
-				d.PES.Header.StreamID = ctx.es.StreamType.ToPESStreamID()
+			// The stream ID is picked on a copy: the caller's header may be shared between streams of different types
+			pesHeader := d.PES.Header
+			if pesHeader.StreamID == 0 {
+				h := *pesHeader
+				h.StreamID = ctx.es.StreamType.ToPESStreamID()
+				pesHeader = &h
 			}
 
 			ntot, npayload, err := writePESData(
 				m.bufWriter,
-				d.PES.Header,
+				pesHeader,
 				d.PES.Data[payloadBytesWritten:],
 				payloadStart,
 				bytesAvailable,
